@@ -1163,7 +1163,7 @@ fn run_gk(s: &mut Session, rng: &mut Rng, n_cases: usize, big: bool) {
 
 
 // ------------------------------------------------------------------------------------------
-// gvar (oracle only: the Lean model answers UNMODELLED for gvar, so these cases are not sent to it)
+// gvar (independent reader for the oracles; model: `gvar` and `gk` requests)
 // ------------------------------------------------------------------------------------------
 
 #[derive(Clone, Debug)]
@@ -1353,11 +1353,53 @@ fn all_tables_equal(a: &Tables, b: &Tables) -> Option<String> {
     None
 }
 
-/// the model can answer iff no patch names gvar / CFF / CFF2
-fn modelled(patches: &[(&Info, &GkPatch)]) -> bool {
-    patches.iter().all(|(_, p)| !p.spec.tables.iter().any(|t| *t == GVAR || *t == tg(b"CFF ") || *t == tg(b"CFF2")))
+/// the font-level model covers every table set; the only exclusion is the stated gvar model assumption
+/// (`glyphVariationDataArrayOffset <= table length`) when some patch names gvar
+fn modelled(base: &Tables, patches: &[(&Info, &GkPatch)]) -> bool {
+    if !patches.iter().any(|(_, p)| p.spec.tables.contains(&GVAR)) { return true; }
+    match get(base, GVAR) {
+        Some(g) if g.len() >= 20 => u32::from_be_bytes([g[16], g[17], g[18], g[19]]) as usize <= g.len(),
+        _ => true,
+    }
 }
 
+fn gk_resp(r: &Result<Result<Vec<u8>, PatchingError>, String>) -> String {
+    match r {
+        Err(p) => format!("panic {p}"),
+        Ok(Err(e)) => format!("err {}", perr(e)),
+        Ok(Ok(bytes)) => match tables_of(bytes) { Some(t) => format!("ok {}", tables_str(&t)), None => "ok unreadable".into() },
+    }
+}
+
+/// correspondence for the modelled `Cff::TAG` / `Cff2::TAG` arms (`cffPatch` in Model/CffKeyed.lean):
+/// the new table of a successful application, or the error when only that arm can have produced it
+fn cff_case(s: &mut Session, base: &Tables, r: &Result<Result<Vec<u8>, PatchingError>, String>, pairs: &[(&Info, &GkPatch)]) {
+    if pairs.iter().any(|(_, p)| !p.clean || p.bytes.len() < 29) { return; }
+    let Some(maxp) = get(base, tg(b"maxp")) else { return };
+    if maxp.len() < 6 { return; }
+    let n = u16::from_be_bytes([maxp[4], maxp[5]]) as usize;
+    if n == 0 { return; }
+    for (tag, v2) in [(CFF_, false), (CFF2, true)] {
+        if !pairs.iter().any(|(_, p)| p.spec.tables.contains(&tag)) { continue; }
+        let mut req = format!("cff {} {} {} {} {}", v2 as u8, n - 1,
+            get(base, IFT_).map(|g| hex(g)).unwrap_or("none".into()),
+            get(base, tag).map(|g| hex(g)).unwrap_or("none".into()), pairs.len());
+        for (_, p) in pairs {
+            req.push_str(&format!(" {} {}", if p.spec.wide { 1 } else { 0 }, hex(&p.bytes[29..])));
+        }
+        // an error can be attributed to this arm only if it is the first (and only) arm that runs
+        let only = pairs.iter().all(|(_, p)| p.spec.tables.iter().all(|t| *t == tag || ![GLYF, GVAR, CFF_, CFF2].contains(t)));
+        let resp = match r {
+            Ok(Ok(bytes)) => match tables_of(bytes).and_then(|t| get(&t, tag).cloned()) {
+                Some(o) => format!("ok {}", digest(&o)),
+                None => "ok missing".into(),
+            },
+            Ok(Err(e)) if only => format!("err {}", perr(e)),
+            _ => continue,
+        };
+        s.case("cff_patch", req, resp);
+    }
+}
 
 /// total gvar glyph data after applying `applied` to a font whose gvar is `cur` (None: gvar not named)
 fn gvar_total_after(cur: Option<&Vec<u8>>, applied: &[(&Info, &GkPatch)]) -> Option<usize> {
@@ -1408,6 +1450,10 @@ fn apply_seq(s: &mut Session, font: &[u8], groups: &[&[(&Info, &GkPatch)]], inpu
         let dec = Scripted::new(None);
         let r = apply_gk(&cur, grp, &dec);
         gvar_case(s, &cur_tables, &r, grp);
+        cff_case(s, &cur_tables, &r, grp);
+        if modelled(&cur_tables, grp) {
+            s.case("glyph_keyed_seq", gk_req(&dec, grp, &cur_tables), gk_resp(&r));
+        }
         if empties {
             s.count("group:gvar-all-empty-step");
             let detail = match &r { Ok(Ok(_)) => "ok".to_string(), Ok(Err(e)) => format!("err {}", perr(e)), Err(p) => format!("panic {p}") };
@@ -1499,7 +1545,7 @@ fn expect_incompatible(s: &mut Session, font: &[u8], base: &Tables, pairs: &[(&I
             Ok(Err(e)) => format!("err {}", perr(e)),
             Ok(Ok(bytes)) => match tables_of(bytes) { Some(t) => format!("ok {}", tables_str(&t)), None => "ok unreadable".into() },
         };
-        if modelled(&order) {
+        if modelled(base, &order) {
             s.case("glyph_keyed_group", req.clone(), resp.clone());
         }
         s.oracle("group:foreign-compat-id-anywhere-is-IncompatiblePatch", matches!(r, Ok(Err(PatchingError::IncompatiblePatch))), input, || resp.clone());
@@ -1594,12 +1640,12 @@ fn run_gk_groups(s: &mut Session, rng: &mut Rng, n_cases: usize) {
                     Ok(t) => t,
                     Err(None) => continue,
                     Err(Some(resp)) => {
-                        if modelled(&pairs) { s.case("glyph_keyed_group", req0.clone(), resp.clone()); }
+                        if modelled(&base, &pairs) { s.case("glyph_keyed_group", req0.clone(), resp.clone()); }
                         s.oracle("group:clean-group-applies", false, input0, || resp.clone());
                         continue;
                     }
                 };
-                if modelled(&pairs) {
+                if modelled(&base, &pairs) {
                     s.case("glyph_keyed_group", req0.clone(), format!("ok {}", tables_str(&want)));
                 }
                 s.count("group:ok");
@@ -1766,7 +1812,7 @@ fn run_boundary(s: &mut Session, rng: &mut Rng) {
 
 
 // ------------------------------------------------------------------------------------------
-// CFF / CFF2 (oracle only, like gvar)
+// CFF / CFF2 (independent INDEX reader for the oracles; model: `cff` and `gk` requests)
 // ------------------------------------------------------------------------------------------
 
 const CFF_: u32 = 0x43464620;
@@ -2023,6 +2069,10 @@ fn run_hostile(s: &mut Session, rng: &mut Rng, n_cases: usize) {
         let dec = Scripted::new(None);
         let r = apply_gk(&font, &pairs, &dec);
         if target == 0 { gvar_case(s, &base, &r, &pairs); }
+        cff_case(s, &base, &r, &pairs);
+        if modelled(&base, &pairs) {
+            s.case("glyph_keyed_hostile", gk_req(&dec, &pairs, &base), gk_resp(&r));
+        }
         let input = || format!("hostile#{case_no} target {target}: gk n 1 {} {} | {}", infos[0].req(), hex(&patch.bytes).chars().take(600).collect::<String>(), font_req(&base).chars().take(1800).collect::<String>());
         match &r {
             Err(p) => s.oracle("hostile:no-panic", false, input, || p.clone()),
@@ -2037,6 +2087,194 @@ fn run_hostile(s: &mut Session, rng: &mut Rng, n_cases: usize) {
                         let same = get(&out, *tag).map(|o| canon_head(*tag, o) == canon_head(*tag, d)).unwrap_or(false);
                         s.oracle("gk:untouched-table-identical", same, input, || format!("table {}", hex(&tag.to_be_bytes())));
                     },
+                }
+            }
+        }
+    }
+}
+
+/// format-1 `IFT ` table (layout of font-test-data `simple_format1_with_one_charstrings_offset`): no glyph is
+/// mapped (first mapped glyph = glyph count), so it contributes no PatchInfos; it only carries the optional
+/// charstrings offsets.  `flags` is written as is (may disagree with the fields present).
+fn ift_format1(compat: &[u8; 16], n_glyphs: u32, max_entry: u16, uri_len: usize, flags: u8, fields: &[u32]) -> Vec<u8> {
+    let mut b: Vec<u8> = vec![1, 0, 0, 0, flags];
+    b.extend_from_slice(compat);
+    b.extend_from_slice(&max_entry.to_be_bytes());
+    b.extend_from_slice(&0u16.to_be_bytes());
+    b.extend_from_slice(&n_glyphs.to_be_bytes()[1..]);
+    let bl = (max_entry as usize + 8) / 8;
+    let map_off = (36 + bl + 2 + uri_len + 1 + 4 * fields.len()) as u32;
+    b.extend_from_slice(&map_off.to_be_bytes());
+    b.extend_from_slice(&0u32.to_be_bytes());
+    b.extend(std::iter::repeat(0u8).take(bl));
+    b.extend_from_slice(&(uri_len as u16).to_be_bytes());
+    b.extend(std::iter::repeat(b'a').take(uri_len));
+    b.push(3);
+    for f in fields { b.extend_from_slice(&f.to_be_bytes()); }
+    b.extend_from_slice(&(n_glyphs as u16).to_be_bytes()); // glyph map: nothing mapped
+    b
+}
+
+/// CFF / CFF2 charstrings INDEXes with hand-set offset arrays (zero offsets, a last offset below the previous
+/// ones, a gap before the first object, bytes after the last one, bad offSize / count), CFF / CFF2 headers that
+/// stop `Cff::read` / `Cff2::read` at each of their steps, and `IFT ` tables in format 1 and 2 whose optional
+/// charstrings-offset fields are present / absent / cut off.  PatchInfos come from a format-2 `IFTX`.
+/// Every case goes to the model twice (`cff` = the arm, `gk` = the whole font); oracles: no panic, unnamed
+/// tables untouched, and for a well-formed INDEX the per-glyph statement.
+fn run_cff_index(s: &mut Session, rng: &mut Rng, n_cases: usize) {
+    for case_no in 0..n_cases {
+        let c1 = compat_id(rng);
+        let mut c2 = compat_id(rng);
+        c2[15] = c2[15].wrapping_add(9);
+        let ents: Vec<MapEntry> = (0..3).map(|i| MapEntry { delta: if i == 0 { 50 } else { 0 }, format: 3, ignored: false }).collect();
+        let v2 = rng.chance(1, 2);
+        let tag = if v2 { CFF2 } else { CFF_ };
+        let n = *rng.pick(&[1usize, 1, 2, 3, 4, 6]);
+        let off_size = *rng.pick(&[1u8, 1, 2, 2, 3, 4]);
+        let glyphs: Vec<Vec<u8>> = (0..n).map(|_| { let l = *rng.pick(&[0usize, 1, 2, 3, 7, 20]); rng.bytes(l) }).collect();
+        // --- the table prefix (header + INDEXes before the charstrings) -------------------------------
+        let hdr_kind = rng.below(24);
+        let mut prefix: Vec<u8> = vec![];
+        if v2 {
+            let top = { let l_ = rng.below(4) as usize; rng.bytes(l_) };
+            let hs: u8 = match hdr_kind { 0 => *rng.pick(&[0u8, 4, 6, 9, 200]), _ => 5 };
+            prefix.extend_from_slice(&[2, 0, hs]);
+            let tl: u16 = if hdr_kind == 1 { *rng.pick(&[0u16, 1, 40, 0xffff]) } else { top.len() as u16 };
+            prefix.extend_from_slice(&tl.to_be_bytes());
+            prefix.extend_from_slice(&top);
+            match hdr_kind {
+                2 => prefix.extend_from_slice(&[0, 0, 0, 0]),                 // empty global subrs without offSize
+                3 => prefix.extend_from_slice(&[0, 0, 0, 9, 1, 1]),           // offsets cut off
+                4 => { prefix.truncate(rng.below(5) as usize); }              // header cut off
+                _ => prefix.extend_from_slice(&[0, 0, 0, 1, 1, 1, 2, 7]),
+            }
+        } else {
+            let hs: u8 = match hdr_kind { 0 => *rng.pick(&[0u8, 3, 5, 7, 200]), _ => 4 };
+            prefix.extend_from_slice(&[1, 0, hs, 1]);
+            let bad_at = if (1..=4).contains(&hdr_kind) { (hdr_kind - 1) as usize } else { 9 };
+            for k in 0..4 {
+                if k == bad_at {
+                    match rng.below(5) {
+                        0 => prefix.extend_from_slice(&[0, 0]),                       // empty INDEX: count only
+                        1 => prefix.extend_from_slice(&[0, 0, 1, 1]),                 // count 0 with offSize + one offset
+                        2 => prefix.extend_from_slice(&[0, 1, 1, 1, 0, 7]),           // last offset 0
+                        3 => prefix.extend_from_slice(&[0, 1, 5, 1, 2, 7]),           // offSize 5
+                        _ => prefix.extend_from_slice(&[0, 2, 1, 1, 2, 200, 7]),      // object runs past the table
+                    }
+                } else {
+                    prefix.extend_from_slice(&[0, 1, 1, 1, 2, rng.next() as u8]);
+                }
+            }
+            if hdr_kind == 5 { prefix.truncate(rng.below(4) as usize); }
+        }
+        prefix.extend_from_slice(&{ let l_ = rng.below(5) as usize; rng.bytes(l_) });
+        // --- the charstrings INDEX with a hand-made offset array --------------------------------------
+        let mut raw: Vec<usize> = vec![1];
+        for g in &glyphs { let l = *raw.last().unwrap() + g.len(); raw.push(l); }
+        let mut data: Vec<u8> = glyphs.iter().flatten().cloned().collect();
+        let idx_kind = rng.below(12);
+        let mut well_formed = true;
+        match idx_kind {
+            0 => { let i = rng.below(n as u64 + 1) as usize; raw[i] = 0; well_formed = false; }          // unreadable entry
+            1 => { raw[n] = 0; well_formed = false; }                                                    // unreadable LAST entry
+            2 => { let lo = raw[0]; let hi = raw[n - 1].max(lo); raw[n] = rng.range(lo as i64, hi as i64) as usize; well_formed = raw[n] >= raw[n - 1] && n >= 1 && raw[n] == 1 + data.len(); } // last below previous
+            3 => { if n >= 2 { let i = rng.range(1, n as i64 - 1) as usize; raw[i] = raw[i].saturating_sub(rng.range(1, 3) as usize).max(1); well_formed = false; } }  // dip in the middle
+            4 => { let gap = rng.range(1, 3) as usize; for r in raw.iter_mut() { *r += gap; } let mut d = rng.bytes(gap); d.extend_from_slice(&data); data = d; well_formed = false; } // gap before object 0
+            5 => { data.extend_from_slice(&{ let l_ = rng.range(1, 4) as usize; rng.bytes(l_) }); well_formed = false; } // bytes after the last object
+            6 => { raw[n] += rng.range(1, 5) as usize; well_formed = false; }                            // last object runs past the table
+            _ => {}
+        }
+        let count_written: usize = if idx_kind == 7 { (n as i64 + *rng.pick(&[-1i64, 1, 255])).max(0) as usize } else { n };
+        let os_written: u8 = if idx_kind == 8 { *rng.pick(&[0u8, 5, 255]) } else { off_size };
+        let at = prefix.len();
+        let mut table = prefix.clone();
+        if v2 { table.extend_from_slice(&(count_written as u32).to_be_bytes()); } else { table.extend_from_slice(&(count_written as u16).to_be_bytes()); }
+        table.push(os_written);
+        for r in &raw { table.extend_from_slice(&be_n(*r, off_size as usize)); }
+        table.extend_from_slice(&data);
+        if idx_kind == 9 { let k = table.len() - rng.below((table.len() - at.min(table.len())) as u64 + 1) as usize; table.truncate(k); well_formed = false; }
+        if hdr_kind <= 5 || idx_kind == 7 || idx_kind == 8 { well_formed = false; }
+        // --- the IFT table: format 1 or 2, optional fields present / absent / cut off -------------------
+        let ift_kind = if rng.chance(1, 3) { rng.below(10) } else { *rng.pick(&[3u64, 4, 7, 8, 9]) };
+        let at_written: u32 = match rng.below(12) { 0 => at as u32 + 1, 1 => (at as u32).saturating_sub(1), 2 => table.len() as u32, 3 => table.len() as u32 + 1, _ => at as u32 };
+        if at_written as usize != at { well_formed = false; }
+        let other: u32 = rng.next() as u32;
+        // fields in table order (CFF first); the arm under test gets `at_written`
+        let (flags, fields): (u8, Vec<u32>) = match (v2, rng.below(3)) {
+            (false, 0) => (1, vec![at_written]),
+            (false, _) => (3, vec![at_written, other]),
+            (true, 0) => (2, vec![at_written]),
+            (true, _) => (3, vec![other, at_written]),
+        };
+        let mut ift = if ift_kind < 5 {
+            ift_format1(&c1, n as u32, *rng.pick(&[0u16, 6, 7, 8, 300]), rng.below(5) as usize, flags, &fields)
+        } else {
+            ift_format2_ext(&c1, 0, &[], if flags & 1 != 0 { Some(fields[0]) } else { None }, if flags & 2 != 0 { Some(*fields.last().unwrap()) } else { None })
+        };
+        match ift_kind {
+            0 | 5 => { ift[4] = *rng.pick(&[0u8, 1, 2, 3, 0xfc]); if ift[4] != flags { well_formed = false; } }   // flags disagree with the fields written
+            1 | 6 => { let keep = rng.range(4, ift.len() as i64) as usize; ift.truncate(keep); well_formed = false; } // cut off
+            2 => { ift[0] = *rng.pick(&[0u8, 3, 255]); well_formed = false; }                                     // unknown format
+            _ => {}
+        }
+        let mut tables: BTreeMap<u32, Vec<u8>> = BTreeMap::new();
+        tables.insert(HEAD, head_table(false, rng));
+        tables.insert(tg(b"maxp"), maxp_table(n as u16));
+        tables.insert(tag, table.clone());
+        tables.insert(IFT_, ift);
+        tables.insert(IFTX, ift_format2(&c2, rng.below(3) as usize, &ents));
+        if rng.chance(1, 2) { tables.insert(tg(b"tab1"), { let l_ = rng.below(9) as usize; rng.bytes(l_) }); }
+        let font = build_font(&tables);
+        let Some(base) = tables_of(&font) else { continue };
+        let all_infos = infos_of(&font);
+        let infos: Vec<&Info> = all_infos.iter().filter(|i| i.iftx).collect();
+        if infos.is_empty() { s.count("cffindex:no-infos"); continue; }
+        // --- patches: 1 or 2, the last glyph listed half of the time --------------------------------
+        let n_p = rng.range(1, infos.len().min(2) as i64) as usize;
+        let mut pools: HashMap<(u32, u32), Vec<u8>> = HashMap::new();
+        let mut patches: Vec<GkPatch> = vec![];
+        for _ in 0..n_p {
+            let mut gids: Vec<u32> = (0..n as u32).filter(|g| if *g as usize == n - 1 { rng.chance(1, 2) } else { rng.chance(1, 3) }).collect();
+            if gids.is_empty() && rng.chance(3, 4) { gids.push(rng.below(n as u64) as u32); }
+            let per: Vec<Vec<u8>> = gids.iter().map(|g| { let l = *rng.pick(&[0usize, 1, 4, 9, 260]); let fresh = rng.bytes(l); pools.entry((tag, *g)).or_insert(fresh).clone() }).collect();
+            let tabs = if rng.chance(1, 6) { vec![tg(b"AAAA"), tag] } else { vec![tag] };
+            let data: Vec<Vec<Vec<u8>>> = tabs.iter().map(|t| if *t == tag { per.clone() } else { gids.iter().map(|_| vec![1]).collect() }).collect();
+            patches.push(mk_patch(GkSpec { wide: rng.chance(1, 4), tables: tabs, gids, data }, &c2));
+        }
+        let pairs: Vec<(&Info, &GkPatch)> = (0..n_p).map(|pi| (infos[pi], &patches[pi])).collect();
+        let dec = Scripted::new(None);
+        let r = apply_gk(&font, &pairs, &dec);
+        cff_case(s, &base, &r, &pairs);
+        s.case("glyph_keyed_cffindex", gk_req(&dec, &pairs, &base), gk_resp(&r));
+        let last_listed = pairs.iter().any(|(_, p)| p.spec.gids.contains(&(n as u32 - 1)));
+        s.count(&format!("cffindex:hdr-{}", if hdr_kind <= 5 { format!("bad{hdr_kind}") } else { "ok".into() }));
+        s.count(&format!("cffindex:idx{}", idx_kind.min(10)));
+        s.count(&format!("cffindex:ift{} format {}", ift_kind.min(7), if ift_kind < 5 { 1 } else { 2 }));
+        let input = || format!("cffindex#{case_no} v2={v2} hdr {hdr_kind} idx {idx_kind} ift {ift_kind} last-listed {last_listed}: gk n {} {} | {}", n_p,
+            pairs.iter().map(|(i, p)| format!("{} {}", i.req(), hex(&p.bytes))).collect::<Vec<_>>().join(" ").chars().take(1200).collect::<String>(),
+            font_req(&base).chars().take(1800).collect::<String>());
+        match &r {
+            Err(p) => s.oracle("cffindex:no-panic", false, input, || p.clone()),
+            Ok(Err(e)) => {
+                s.count(&format!("cffindex:err:{}{}", perr(e).chars().take(44).collect::<String>(), if last_listed { " last-listed" } else { "" }));
+                s.oracle("cffindex:well-formed-font-applies", !well_formed, input, || perr(e));
+            }
+            Ok(Ok(bytes)) => {
+                s.count(&format!("cffindex:ok idx{}{}", idx_kind.min(10), if last_listed { " last-listed" } else { "" }));
+                match tables_of(bytes) {
+                    None => s.oracle("cffindex:output-readable", false, input, || "FontRef::new failed".into()),
+                    Some(out) => {
+                        for (t, d) in &base {
+                            if *t == IFTX || *t == tag { continue; }
+                            let same = get(&out, *t).map(|o| canon_head(*t, o) == canon_head(*t, d)).unwrap_or(false);
+                            s.oracle("gk:untouched-table-identical", same, input, || format!("table {}", hex(&t.to_be_bytes())));
+                        }
+                        if well_formed {
+                            if let Some(o) = get(&out, tag) {
+                                cff_oracles(s, &CffSpec { v2, off_size, prefix: prefix.clone(), glyphs: glyphs.clone() }, o, &pairs, &input);
+                            }
+                        }
+                    }
                 }
             }
         }
@@ -2275,5 +2513,6 @@ fn run(cfg: &Config, s: &mut Session) {
     run_boundary(s, &mut rng);
     run_cff_groups(s, &mut rng, 300 * k);
     run_hostile(s, &mut rng, 1500 * k);
+    run_cff_index(s, &mut rng, 2500 * k);
     run_round(s, &mut rng, 500 * k);
 }
